@@ -111,6 +111,7 @@ def run(ck, F):
     # .. and exactly once: what both documents hold (the namespace of a schema that two files of the set import) is not listed twice
     from rules import c10 as C10
     C10.run(C04._Sub(ck, "R2", lambda key: key.startswith("merge-no-duplicates"), only_rules=("R4",)), F)
+    rule_skipped_import_visible(ck, F)
     parsers = [b for b in scans.bodies(F.lib) if "yaserde_tests" not in b["path"] and M.Body(b).calls_to(PARSE)]
     ck.floor("R1", "functions parsing a document", len(parsers), 1)
     if not heads:
@@ -274,6 +275,55 @@ def _root_is_files(B, o):
 def _site_key(sp):
     """file name of a span (line numbers are not part of a key)"""
     return str(sp).split(":")[0].rsplit("/", 1)[-1] if sp else "-"
+
+
+def rule_skipped_import_visible(ck, F):
+    """A file that two files import (a diamond) is read once; the second importer gets an empty document for it. Its own
+    components that refer to the shared file (an extension of one of its types, a `ref` to one of its elements) are looked up in
+    the importing document and in the XML of the current file only — so they are not found, the conversion of the component fails and
+    the component is left out. Decided structurally: (a) where an import is answered with the empty document because the file's
+    processed flag is set, and (b) the component lookups see nothing but their own document and XML node, the components of a
+    file read earlier are invisible to a later importer."""
+    from rules import anchors as A
+    empties = A.by_signature(F, [], "model::doc::RustDocument")
+    if len(empties) != 1:
+        return
+    empty = empties[0]
+    skipping = []
+    for b in scans.bodies(F.lib):
+        if "yaserde_tests" in b["path"] or b.get("closure"):
+            continue
+        B = M.Body(b)
+        loads = [(bb, t) for bb, t in B.calls_to(C12.ATOMIC_LOAD) if any("processed" in o.fields() for o in M.trace(B, t["args"][0]))]
+        if not loads or not B.calls_to(empty):
+            continue
+        for lbb, lt in loads:
+            tgt = lt.get("target")
+            if tgt is None:
+                continue
+            sw = B.term(tgt)
+            if sw.get("k") != "switch":
+                continue
+            true_arm = sw["otherwise"] if [v for v, _ in sw["targets"]] == [0] else None
+            if true_arm is None:
+                continue
+            reach = B.reachable_from(true_arm)
+            if any(ebb in reach for ebb, _ in B.calls_to(empty)):
+                skipping.append((b, B.term(lbb).get("sp")))
+    if not skipping:
+        ck.ok("R2", "skipped-import-visible", "-", "no import is answered with an empty document because its file was read already")
+        return
+    lookups = [f for f in A._fn_items(F) if f["path"] in {p_ for p_, _n, _s in A.component_lookups(F)}]
+    narrow = bool(lookups) and all(all(any(w in A._norm_ty(x) for w in ("RustDocument", "roxmltree::Node<", "&str", "Option<&model::Namespace>")) for x in f["inputs"]) for f in lookups)
+    for b, site in skipping[:1]:
+        short = b["path"].rsplit("::", 1)[-1]
+        if narrow:
+            ck.violation("R2", "skipped-import-visible", site,
+                         f"{short} answers the import of a file that was read already with the empty document, and the component lookups see only the "
+                         f"importing document and the XML of the current file: in a diamond (a imports b and c, both import d) the components of c that extend or "
+                         f"refer to components of d are not found, fail to convert and are left out of the output", fn="")
+        else:
+            ck.undecided("R2", "skipped-import-visible", site, f"{short} answers a repeated import with the empty document; whether the lookups see the file's components some other way was not decided", fn="")
 
 
 def _is_empty_doc(o):
